@@ -19,6 +19,9 @@ int vh_log_i; double vh_log_d;
 #ifndef GROUP
 #define GROUP 1
 #endif
+#ifndef NRHS
+#define NRHS 1
+#endif
 #define EPS 1.1102230246251565e-16
 #define SAFMIN 2.2250738585072014e-308
 int_t sp_ienv(int_t i) { return 1; }
@@ -29,14 +32,21 @@ double dlamch_(char *c) { return (*c == 'E' || *c == 'e') ? EPS : SAFMIN; }
 static int pat(int i, int j) { return (int)(((unsigned long)PAT >> (i + j * N)) & 1UL); }
 static double ab(double x) { return x < 0 ? -x : x; }
 static double Ad[N][N], *gx, *gb;
-static int nsolve;
+static int nsolve, colsolve[NRHS + 1], first_berr_gt_eps[NRHS + 1];
+static int vh_col_done[NRHS + 1];
+static double *vh_xbase, *vh_bbase;
 static double opA(int i, int j) { return TR ? Ad[j][i] : Ad[i][j]; }
 
 void dgstrs(trans_t trans, SuperMatrix *L, SuperMatrix *U, int_t *perm_r, int_t *perm_c, SuperMatrix *B, Gstat_t *G, int_t *info)
 {
     double *w = (double *)((DNformat *)B->Store)->nzval;
-    int i, j;
+    int i, j, col = 0;
     ++nsolve;
+    /* which right-hand side is being refined: the residual matches exactly one column's B - op(A) X in general;
+       the routine works through the columns in order, so count solves per column by the order of first use */
+    for (col = 0; col < NRHS - 1; ++col) if (!vh_col_done[col]) break;
+    ++colsolve[col];
+    gx = vh_xbase + col * N; gb = vh_bbase + col * N;
 #ifdef MAXCORR
     if (nsolve > MAXCORR) { vh_assume(0); }   /* bound of this query: at most MAXCORR corrections are followed */
 #endif
@@ -49,11 +59,12 @@ void dgstrs(trans_t trans, SuperMatrix *L, SuperMatrix *U, int_t *perm_r, int_t 
     for (i = 0; i < N; ++i) w[i] = vh_double();    /* any correction */
     *info = 0;
 }
-int_t dlacon_(int_t *n, double *v, double *x, int_t *isgn, double *est, int_t *kase) { *kase = 0; *est = 1.0; return 0; }
+/* the error-bound estimator is entered once per column, after that column's refinement loop */
+int_t dlacon_(int_t *n, double *v, double *x, int_t *isgn, double *est, int_t *kase) { int c; for (c = 0; c < NRHS; ++c) if (!vh_col_done[c]) { vh_col_done[c] = 1; break; } *kase = 0; *est = 1.0; return 0; }
 
 VH_MAIN
 {
-    static double a[N * N + 1], b[N], x[N], R[N], C[N], ferr[1], berr[1];
+    static double a[N * N + 1], b[N * NRHS], x[N * NRHS], x_in[N * NRHS], R[N], C[N], ferr[NRHS], berr[NRHS];
     static int_t rowind[N * N + 1], colptr[N + 1], perm_r[N], perm_c[N];
     SuperMatrix A, L, U, B, X; static NCformat st; static DNformat bst, xst; static SCPformat Ls; static NCPformat Us; static Gstat_t G;
     int i, j, nnz = 0; int_t info = 9;
@@ -63,14 +74,32 @@ VH_MAIN
     A.Stype = SLU_NC; A.Dtype = SLU_D; A.Mtype = SLU_GE; A.nrow = N; A.ncol = N; A.Store = &st;
     L.Stype = SLU_SCP; L.Dtype = SLU_D; L.Mtype = SLU_TRLU; L.nrow = N; L.ncol = N; L.Store = &Ls;
     U.Stype = SLU_NCP; U.Dtype = SLU_D; U.Mtype = SLU_TRU; U.nrow = N; U.ncol = N; U.Store = &Us;
-    for (i = 0; i < N; ++i) { b[i] = vh_double(); x[i] = vh_double(); R[i] = 1.0; C[i] = 1.0; }
-    bst.lda = N; bst.nzval = b; xst.lda = N; xst.nzval = x; gx = x; gb = b;
-    B.Stype = SLU_DN; B.Dtype = SLU_D; B.Mtype = SLU_GE; B.nrow = N; B.ncol = 1; B.Store = &bst; X = B; X.Store = &xst;
+    for (i = 0; i < N; ++i) { R[i] = 1.0; C[i] = 1.0; }
+    for (i = 0; i < N * NRHS; ++i) { b[i] = vh_double(); x[i] = vh_double(); x_in[i] = x[i]; }
+    bst.lda = N; bst.nzval = b; xst.lda = N; xst.nzval = x; gx = x; gb = b; vh_xbase = x; vh_bbase = b;
+    B.Stype = SLU_DN; B.Dtype = SLU_D; B.Mtype = SLU_GE; B.nrow = N; B.ncol = NRHS; B.Store = &bst; X = B; X.Store = &xst;
 
     dgsrfs((trans_t)TR, &A, &L, &U, perm_r, perm_c, NOEQUIL, R, C, &B, &X, ferr, berr, &G, &info);
 
     vh_assert(info == 0, "success");
-    vh_assert(nsolve <= 5, "at most ITMAX corrections");
+    vh_assert(nsolve <= 5 * NRHS, "at most ITMAX corrections per column");
+#if GROUP == 3
+    {   /* every column is treated like the first one: a correction is attempted whenever its backward error at the
+           starting X exceeds machine epsilon (berr <= 1 always, so the 'decreased by a factor of 2 from 3' test holds) */
+        int cidx;
+        for (cidx = 0; cidx < NRHS; ++cidx) {
+            double safe1 = (N + 1) * SAFMIN, safe2 = safe1 / EPS; int big = 0, regular = 1;
+            for (i = 0; i < N; ++i) {
+                double r = b[i + cidx * N], den = ab(b[i + cidx * N]), num;
+                for (j = 0; j < N; ++j) { r -= opA(i, j) * x_in[j + cidx * N]; den += ab(opA(i, j)) * ab(x_in[j + cidx * N]); }
+                num = (den > safe2) ? ab(r) : ab(r) + safe1;
+                if (!(den > safe2)) regular = 0;      /* tiny denominators: the ratio may exceed 1.5 and refinement is legitimately skipped */
+                if (den != 0.0 && num > EPS * den) big = 1;
+            }
+            if (big && regular) vh_assert(colsolve[cidx] >= 1, "refinement is attempted for every column whose starting backward error exceeds eps, not only for the first column");
+        }
+    }
+#endif
 #if GROUP == 2
     {
         /* berr = max_i num_i / den_i, stated without divisions: an upper bound of every ratio that is attained */
